@@ -13,7 +13,8 @@ from checks import attester_common as ac
 
 
 def run(ctx):
-    ctx.prove("AttesterProofs")   # unbounded (TLAPS) versions of the model-level invariants TLC checks below
+    if ctx.thorough:
+        ctx.prove("AttesterProofs")   # unbounded (TLAPS) versions of the model-level invariants TLC checks below
     n, cases, kinds, steps, nbeh = ac.run(ctx, "Trace_Attester_C06.cfg", ["tlc", "sweep"], ctx.pick(3, 3))
     rej = sum(1 for c in cases for s in c["steps"] if s.get("k") == "V" and s.get("q") != "good")
     return ctx.finish({
